@@ -24,7 +24,7 @@ func init() {
 	register(&propDef{
 		ID: "C18",
 		Meta: propMeta{
-			Explanation: "Decides structural necessary conditions of CFB validity in lib/comdoc, lib/redblack and the MSI digesters (nothing is executed): (R18a) the three walkers hashMsiDir, prehashMsiDir and msiToTarDir sort the ListDir result with sortMsiFiles before iterating, recurse into storages, and put the storage UID after the children; the direct digesters and DigestMsiTar skip the same two stream names, which are the names InsertMSISignature writes; (R18b) layout: Header encodes to 512 bytes and RawDirEnt to 128, every `SectorSize / K` uses K=128 for directory entries and K=4 for sector ids, the byte ranges prehashMsiDirent cuts out of an encoded entry are exactly the spans of StreamSize, UserFlags and CreateTime+ModifyTime, all binary I/O of the package is little-endian, and Close/writeShortSAT/writeDirStream/writeMSAT store every header count and chain head from the table they just wrote; (R18c) chains: every chain builder stores the end-of-chain marker after its loop on every success path (the empty chain excepted), no table is indexed by the end-of-chain sentinel on the zero-iteration path, every index of a sector table by a sector id on the writer side is preceded by a comparison of that id (ids produced by the allocator excepted), and the chain-following loops of the package are bounded (shared with C11 R11d); (R18d) red-black rebuild: a node can become red without an existing red node (new nodes are inserted red), Insert blackens the root, rebuildTree stores colour, both children (-1 for none) and the storage root, and the ordering function compares equal-length names through an upper-casing function as MS-CFB 2.6.4 requires; (R18e) the mini-stream cutoff is the same predicate `size < MinStdStreamSize` at every site and selects the short table on its true side.",
+			Explanation: "Decides structural necessary conditions of CFB validity in lib/comdoc, lib/redblack and the MSI digesters (nothing is executed): (R18a) the three walkers hashMsiDir, prehashMsiDir and msiToTarDir sort the ListDir result with sortMsiFiles before iterating, recurse into storages, and put the storage UID after the children; the direct digesters and DigestMsiTar skip the same two stream names, which are the names InsertMSISignature writes; (R18b) layout: Header encodes to 512 bytes and RawDirEnt to 128, every `SectorSize / K` uses K=128 for directory entries and K=4 for sector ids, the byte ranges prehashMsiDirent cuts out of an encoded entry are exactly the spans of StreamSize, UserFlags and CreateTime+ModifyTime, all binary I/O of the package is little-endian, and Close/writeShortSAT/writeDirStream/writeMSAT store every header count and chain head from the table they just wrote; (R18c) chains: every chain builder stores the end-of-chain marker after its loop on every success path (the empty chain excepted), no table is indexed by the end-of-chain sentinel on the zero-iteration path, every index of a sector table by a sector id on the writer side is preceded by a comparison of that id (ids produced by the allocator excepted), and the chain-following loops of the package are bounded (shared with C11 R11d); (R18d) red-black rebuild: a node can become red without an existing red node (new nodes are inserted red), Insert blackens the root, rebuildTree stores colour, both children (-1 for none) and the storage root, and the ordering function compares equal-length names through an upper-casing function as MS-CFB 2.6.4 requires; (R18e) the mini-stream cutoff is the same predicate `size < MinStdStreamSize` at every site and selects the short table on its true side; (R18f) lib/comdoc keeps no pointer to an element of a slice it grows with append (Files, SAT, SSAT, MSAT) in a struct field (zero instances today, positive control testdata/ctl/elemptr); R18a also requires DigestMsiTar to read every tar member through the tar reader itself, without a length limit.",
 			NotDecided:  "validity of a concrete output file: chains in bounds, acyclic and mutually disjoint, allocation tables and header counts agreeing with the file length, the directory tree being correctly ordered for the actual names (only the comparator's shape is checked), DIFAT growth arithmetic, equality of the tar-stream digest and the direct digest on a concrete MSI (only the walkers' agreement is checked).",
 			Assumptions: []string{"encoding/binary encodes fixed-size structs field by field without padding", "MS-CFB 2.6.4 (name ordering) and 2.6.1 (entry layout) as transcribed in the frozen tables"},
 		},
@@ -39,6 +39,7 @@ func runC18(c *Ctx) {
 	c.Rule("R18c", "chain builders terminate their chains, never index a table by the sentinel or an unchecked sector id, and chain walks are bounded", 12)
 	c.Rule("R18d", "directory tree rebuild: new nodes red, root black, all links stored, names ordered case-insensitively", 5)
 	c.Rule("R18e", "the mini-stream cutoff predicate and table selection agree at every site", 5)
+	c.Rule("R18f", "no pointer to an element of a directory/table slice that is grown with append is kept in a field", 0)
 	fns := p.pkgFuncs("lib/comdoc")
 	if len(fns) < 25 {
 		c.Undecided("R18b", "lib/comdoc", "-", fmt.Sprintf("only %d functions found", len(fns)))
@@ -52,6 +53,8 @@ func runC18(c *Ctx) {
 	c18Chains(c, fns)
 	c18Tree(c)
 	c18Cutoff(c, fns)
+	c18ElemPtr(c)
+	c18TarWhole(c)
 }
 
 // ------------------------------------------------------------------------------ R18a
@@ -944,4 +947,135 @@ func c18Cutoff(c *Ctx, fns []*ssa.Function) {
 		c.Check(ok, "R18e", "(*lib/comdoc.ComDoc).addStream short side allocates short sectors", p.Pos(fn.Pos()), "", "a short stream is not allocated from the short-sector table")
 	}
 	_ = sort.Strings
+}
+
+// ------------------------------------------------------------------------------ R18f
+
+// elemPtrStored: stores of a pointer to an element of a slice into a struct field or
+// package variable, where that slice (or the field it is assigned to) is grown with append
+// somewhere in the same package: after the append reallocates, the stored pointer refers to
+// the old backing array and updates through it are lost.
+func elemPtrStored(p *Prog) (out []gFinding) {
+	// fields that are appended to, per package
+	grown := map[string]bool{}
+	for _, fn := range p.Funcs {
+		for _, b := range fn.Blocks {
+			for _, in := range b.Instrs {
+				st, ok := in.(*ssa.Store)
+				if !ok {
+					continue
+				}
+				k := p.memKey(st.Addr)
+				if k == "" {
+					continue
+				}
+				if call, ok := st.Val.(*ssa.Call); ok {
+					if bi, ok := call.Call.Value.(*ssa.Builtin); ok && bi.Name() == "append" {
+						grown[k] = true
+					}
+				}
+			}
+		}
+	}
+	n := map[*ssa.Function]int{}
+	for _, fn := range p.Funcs {
+		// local slices that end up in a grown field
+		localGrown := map[ssa.Value]string{}
+		for _, b := range fn.Blocks {
+			for _, in := range b.Instrs {
+				if st, ok := in.(*ssa.Store); ok {
+					if k := p.memKey(st.Addr); grown[k] {
+						for _, lf := range phiLeaves(st.Val, nil, map[*ssa.Phi]bool{}) {
+							localGrown[lf.V] = k
+						}
+						localGrown[st.Val] = k
+					}
+				}
+			}
+		}
+		for _, b := range fn.Blocks {
+			for _, in := range b.Instrs {
+				st, ok := in.(*ssa.Store)
+				if !ok {
+					continue
+				}
+				// destination: a struct field or a global (long-lived), not a local
+				dk := p.memKey(st.Addr)
+				if dk == "" {
+					continue
+				}
+				if _, isIA := st.Addr.(*ssa.IndexAddr); isIA {
+					continue // element of a slice: the usual worklist/stack idiom
+				}
+				// value: &slice[i] or &slice[i].field
+				v := st.Val
+				if fa, ok := v.(*ssa.FieldAddr); ok {
+					v = fa.X
+				}
+				ia, ok := v.(*ssa.IndexAddr)
+				if !ok {
+					continue
+				}
+				src := ""
+				if l, ok := ia.X.(*ssa.UnOp); ok && l.Op == token.MUL {
+					if k := p.memKey(l.X); grown[k] {
+						src = k
+					}
+				}
+				if src == "" {
+					if k, ok := localGrown[ia.X]; ok {
+						src = k
+					}
+				}
+				if src == "" {
+					continue
+				}
+				n[fn]++
+				out = append(out, gFinding{Key: fmt.Sprintf("%s keeps &%s[i] in %s#%d", p.FName(fn), src, dk, n[fn]), Pos: p.Pos(st.Pos()),
+					Detail: fmt.Sprintf("a pointer to an element of %s is stored in %s, but %s is grown with append elsewhere in the package: once append reallocates, the stored pointer refers to the old copy and updates made through it never reach the table that is written out", src, dk, src)})
+			}
+		}
+	}
+	return
+}
+
+func c18ElemPtr(c *Ctx) {
+	p := c.P
+	for _, f := range elemPtrStored(p) {
+		if !strings.Contains(f.Key, "lib/comdoc.") {
+			continue
+		}
+		c.Fail("R18f", f.Key, f.Pos, f.Detail)
+	}
+	c.runControl("R18f element pointer kept across append", "Table).Open", elemPtrStored)
+}
+
+// c18TarWhole: DigestMsiTar consumes every member through the tar reader itself.
+func c18TarWhole(c *Ctx) {
+	p := c.P
+	fn := p.Func("lib/authenticode.DigestMsiTar")
+	if fn == nil {
+		c.Undecided("R18a", "DigestMsiTar", "-", "function not found")
+		return
+	}
+	var tr ssa.Value
+	for _, ci := range p.callsIn(fn, "archive/tar.NewReader") {
+		tr = ci.Value()
+	}
+	n := 0
+	for _, name := range []string{"io/ioutil.ReadAll", "io.ReadAll", "io.Copy", "io.CopyN", "io.CopyBuffer"} {
+		for _, ci := range p.callsIn(fn, name) {
+			idx := 0
+			if strings.HasPrefix(name, "io.Copy") {
+				idx = 1
+			}
+			n++
+			src := stripConv(ci.Common().Args[idx])
+			c.Check(tr != nil && src == tr && name != "io.CopyN", "R18a", fmt.Sprintf("lib/authenticode.DigestMsiTar member read#%d is whole", n), p.Pos(ci.Pos()), name+" from the tar reader itself",
+				"a member of the MSI tar stream is read through a wrapper or with a length limit ("+name+" of "+short(src.String(), 50)+"): bytes beyond the limit are left in the member and hashed as if they were the next stream, so the tar digest no longer equals the direct digest")
+		}
+	}
+	if n < 2 {
+		c.Undecided("R18a", "DigestMsiTar member reads", p.Pos(fn.Pos()), fmt.Sprintf("only %d reads found (2 confirmed by reading)", n))
+	}
 }
